@@ -63,6 +63,17 @@ Proof.
   - destruct Hs as (_ & [C0|C0]); [contradiction|assumption].
 Qed.
 
+(* ---- the growing loop of a left-recursive leader terminates ---- *)
+Lemma growth_terminates c fuel n r s :
+  I c s ->
+  (forall s', parseRule (parseExprWrap c fuel) r s' <> OutOfFuel) ->
+  length (cData c) + 2 <= n ->
+  parseRuleRecursiveLeader c (parseExprWrap c fuel) n r s <> OutOfFuel.
+Proof.
+  intros HI Hnf Hn. apply leader_terminates; auto.
+  intros e s0 H0. apply parseExprWrap_inv. exact H0.
+Qed.
+
 (* ---- the whole parse ---- *)
 Definition final_state (o : outcome) : option pstate :=
   match o with Returned _ _ s | Panicked _ s => Some s | Diverged => None end.
